@@ -13,7 +13,24 @@ const (
 	ctlReturn
 	ctlBreak
 	ctlContinue
+	ctlFallthrough
 )
+
+// mine reports whether a break/continue that reached a loop or switch labelled myLabel is meant for it.
+func (ex *Exec) mine(myLabel string) bool {
+	if ex.brLabel == "" || ex.brLabel == myLabel {
+		ex.brLabel = ""
+		return true
+	}
+	return false
+}
+
+// takeLabel returns the label attached to the statement being entered (set by the enclosing LabeledStmt).
+func (ex *Exec) takeLabel() string {
+	l := ex.pendingLabel
+	ex.pendingLabel = ""
+	return l
+}
 
 func (ex *Exec) declare(id *ast.Ident, t types.Type, v Value) {
 	if id.Name == "_" {
@@ -163,15 +180,26 @@ func (ex *Exec) execStmt(s ast.Stmt) ctl {
 		return ex.execFor(s)
 	case *ast.RangeStmt:
 		return ex.execRange(s)
+	case *ast.DeferStmt:
+		ex.execDefer(s)
+		return ctlNone
+	case *ast.LabeledStmt:
+		ex.pendingLabel = s.Label.Name
+		c := ex.execStmt(s.Stmt)
+		ex.pendingLabel = ""
+		return c
 	case *ast.BranchStmt:
+		ex.brLabel = ""
 		if s.Label != nil {
-			ex.unsupported("labelled branch")
+			ex.brLabel = s.Label.Name
 		}
 		switch s.Tok {
 		case token.BREAK:
 			return ctlBreak
 		case token.CONTINUE:
 			return ctlContinue
+		case token.FALLTHROUGH:
+			return ctlFallthrough
 		}
 	}
 	ex.unsupported("statement %T at %s", s, ex.where(s))
@@ -238,6 +266,7 @@ func (ex *Exec) execAssign(s *ast.AssignStmt) {
 }
 
 func (ex *Exec) execSwitch(s *ast.SwitchStmt) ctl {
+	myLabel := ex.takeLabel()
 	if s.Init != nil {
 		ex.execStmt(s.Init)
 	}
@@ -248,9 +277,19 @@ func (ex *Exec) execSwitch(s *ast.SwitchStmt) ctl {
 		mt = machType(ex.typeOf(s.Tag))
 	}
 	var def *ast.CaseClause
-	run := func(cc *ast.CaseClause) ctl {
+	clauses := s.Body.List
+	var run func(cc *ast.CaseClause) ctl
+	run = func(cc *ast.CaseClause) ctl {
 		c := ex.execBlock(cc.Body)
-		if c == ctlBreak {
+		if c == ctlBreak && ex.mine(myLabel) {
+			return ctlNone
+		}
+		if c == ctlFallthrough {
+			for i, st := range clauses {
+				if st == ast.Stmt(cc) && i+1 < len(clauses) {
+					return run(clauses[i+1].(*ast.CaseClause))
+				}
+			}
 			return ctlNone
 		}
 		return c
@@ -281,6 +320,7 @@ func (ex *Exec) execSwitch(s *ast.SwitchStmt) ctl {
 }
 
 func (ex *Exec) execFor(s *ast.ForStmt) ctl {
+	myLabel := ex.takeLabel()
 	ord := 0
 	if len(ex.frames) == 1 {
 		ex.loopCount++
@@ -290,7 +330,7 @@ func (ex *Exec) execFor(s *ast.ForStmt) ctl {
 		ex.execStmt(s.Init)
 	}
 	if ord > 0 && ex.fc != nil && ex.fc.Loops[ord] != nil {
-		return ex.execLoopCut(s, ex.fc.Loops[ord], ord)
+		return ex.execLoopCut(s, ex.fc.Loops[ord], ord, myLabel)
 	}
 	for iter := 0; ; iter++ {
 		if iter > 100000 {
@@ -309,7 +349,14 @@ func (ex *Exec) execFor(s *ast.ForStmt) ctl {
 		case ctlReturn:
 			return ctlReturn
 		case ctlBreak:
-			return ctlNone
+			if ex.mine(myLabel) {
+				return ctlNone
+			}
+			return ctlBreak
+		case ctlContinue:
+			if !ex.mine(myLabel) {
+				return ctlContinue
+			}
 		}
 		if s.Post != nil {
 			ex.execStmt(s.Post)
@@ -318,6 +365,7 @@ func (ex *Exec) execFor(s *ast.ForStmt) ctl {
 }
 
 func (ex *Exec) execRange(s *ast.RangeStmt) ctl {
+	myLabel := ex.takeLabel()
 	if len(ex.frames) == 1 {
 		ex.loopCount++
 	}
@@ -380,7 +428,14 @@ func (ex *Exec) execRange(s *ast.RangeStmt) ctl {
 		case ctlReturn:
 			return ctlReturn
 		case ctlBreak:
-			return ctlNone
+			if ex.mine(myLabel) {
+				return ctlNone
+			}
+			return ctlBreak
+		case ctlContinue:
+			if !ex.mine(myLabel) {
+				return ctlContinue
+			}
 		}
 	}
 	return ctlNone
